@@ -392,17 +392,50 @@ func (x *Exec) applyContract(fr *Frame, st *State, fn *ssa.Function, con *Contra
 			x.oblige(fr, st, "pre", shortKey(key)+":recv", con.frameTagsPlus(x.sweepTags), x.tt.Not(x.tt.Eq(rt, x.tt.IntLit(0))), "receiver of "+key+" must not be nil")
 		}
 	}
+	if !x.isRedeemFunc(fn) {
+		for i, pt := range ptypes {
+			if i < len(args) && x.isLiveTrackedPtr(pt) {
+				if at, ok := args[i].(*Term); ok {
+					red := x.tt.Select(x.heap(st, "G$redeemed", arraySort("Int", "Bool")), at)
+					x.oblige(fr, st, "pre", fmt.Sprintf("%s:live%d", shortKey(key), i), []string{"C04", "C05", "C11"}, x.tt.Or(x.tt.Eq(at, x.tt.IntLit(0)), x.tt.Not(red)), "argument "+fmt.Sprint(i)+" of "+key+" must be live (not redeemed)")
+				}
+			}
+		}
+	}
 	for _, c := range con.Requires {
 		g := x.evalBool(mkEnv(st, nil), c.Expr)
 		x.oblige(fr, st, "pre", fmt.Sprintf("%s:%d", shortKey(key), c.Ord), c.Tags, g, "precondition of "+key+": "+c.Text)
 	}
 	// effects
-	if con.ModAll || (!con.HasModifies && !con.Extern && len(con.Ensures) == 0) {
+	if con.Effects == "validation" {
+		var recv *Term
+		if fn.Signature.Recv() != nil && len(args) > 0 && x.isValidatorPtrType(ptypes[0]) {
+			recv, _ = args[0].(*Term)
+		}
+		env := mkEnv(pre, nil)
+		if recv != nil {
+			x.addFact(x.descT(recv, recv))
+		}
+		x.checkCallEffects(fr, st, pre, recv, key)
+		x.noWriteCheck++
+		x.applyValidationEffects(st, pre, recv)
+		x.noWriteCheck--
+		for _, m := range con.Modifies {
+			x.havocLvalue(env, st, m)
+		}
+	} else if con.ModAll || (!con.HasModifies && !con.Extern && len(con.Ensures) == 0) {
 		x.havocAll(st)
 	} else {
 		env := mkEnv(pre, nil)
+		if con.Recycled {
+			// the ghost pool state changes only at the object handed out (see the contract's ensures)
+			x.noWriteCheck++
+		}
 		for _, m := range con.Modifies {
 			x.havocLvalue(env, st, m)
+		}
+		if con.Recycled {
+			x.noWriteCheck--
 		}
 		st.clk = x.advanceClk(st)
 	}
@@ -426,14 +459,26 @@ func (x *Exec) applyContract(fr *Frame, st *State, fn *ssa.Function, con *Contra
 		v := x.fresh(fmt.Sprintf("r$%s.%d", shortKey(key), i), res.At(i).Type())
 		results = append(results, v)
 	}
+	// whatever a call returns exists once the call has returned
+	for i, rv := range results {
+		x.assumeExisting(st, rv, res.At(i).Type())
+		if rt, ok := rv.(*Term); ok && rt.Sort == "Int" && x.topEffects() && !x.quiet && len(x.prog.Cons.ValidatorTypes) > 0 {
+			x.addFact(x.frameSoFar(x.topFrame, pre, rt))
+		}
+	}
 	if con.FreshResult && len(results) > 0 {
 		if r, ok := results[0].(*Term); ok && r.Sort == "Int" {
 			x.addFact(x.tt.And(x.tt.Ge(x.tt.UF("birth$", "Int", r), pre.clk), x.tt.Gt(r, x.tt.IntLit(0)), x.tt.UF("isbase$", "Bool", r)))
 		}
 	}
 	if con.Recycled && len(results) > 0 {
+		x.noWriteCheck++
 		x.applyRecycled(st, pre, asTerm(results[0]), res.At(0).Type())
+		x.noWriteCheck--
 		x.ownObjs[asTerm(results[0]).id] = true
+	}
+	for _, c := range con.AssumeResult {
+		x.addFact(x.evalBool(mkEnv(st, results), c.Expr))
 	}
 	for _, c := range con.Ensures {
 		if hasTag(c.Tags, "local") {
@@ -462,6 +507,7 @@ func (x *Exec) applyRecycled(st, pre *State, r *Term, T types.Type) {
 	x.recordWrite("G$redeemed", r)
 	if pt, ok := T.Underlying().(*types.Pointer); ok {
 		env := &Env{x: x, st: st, old: pre}
+		isVal := x.isValidatorTypeName(typeName(pt.Elem()))
 		for _, t := range env.cellTargets(r, pt.Elem()) {
 			srt := x.heapSorts[t.heap]
 			if srt == "" {
@@ -469,8 +515,12 @@ func (x *Exec) applyRecycled(st, pre *State, r *Term, T types.Type) {
 			}
 			h := x.heap(st, t.heap, srt)
 			_, es := splitArraySort(srt)
-			st.heaps[t.heap] = tt.Store(h, t.idx, tt.Fresh(t.heap+"@rec", es))
+			stale := tt.Fresh(t.heap+"@rec", es)
+			st.heaps[t.heap] = tt.Store(h, t.idx, stale)
 			x.recordWrite(t.heap, t.idx)
+			if isVal && !x.quiet {
+				x.recycledCells = append(x.recycledCells, recycledCell{obj: r, heap: t.heap, idx: t.idx, stale: stale, cond: x.curPC})
+			}
 		}
 	}
 }
